@@ -44,6 +44,15 @@ def step_items(props, tier, flavours=FLAVOURS, policies=POLICIES, ops=('get', 'i
     return out
 
 
+def inv_step_items(prop, tier):
+    """Inv-preservation obligations of the core operations, discharged under `prop` (see vc_core.INV_CLAUSES)"""
+    out = []
+    for it in step_items([], tier):
+        if tier == 'quick' and (it['n'] > 2 or it['fw'] is not None): continue
+        it = dict(it); it['inv_for'] = prop; out.append(it)
+    return out
+
+
 def extra_step_items(props, tier):
     """insert_result (sync engines) and clear (GlobalCache) steps"""
     out = []
@@ -238,13 +247,13 @@ def items_for(prop, tier):
         for x in c: x['atomics'] = True
         return step_items(['C15'], tier, flavours=['G', 'A'], ops=('get',)) + c + stats_items(['C15'], tier)
     if p == 'C16': return step_items(['C16'], tier) + saturation_items(['C16']) + extra_step_items(['C16'], tier) + wrap_items(['C16'], tier, pred=lambda r: r['group'] in ('cfg', 'mem', 'res', 'cif', 'inv', 'method', 'sig')) + [x for x in inv_items(['C16'], tier) if x['mode'] != 'group' or x['name'] in ('t1', 'custom_g')]
-    if p == 'C09': return extra_step_items(['C09'], tier) + wrap_items(['C09'], tier, pred=lambda r: r['intended']['result'], second=(False, True))
-    if p == 'C10': return wrap_items(['C10'], tier, pred=lambda r: r['intended']['cache_if'] or r['group'] in ('plain', 'res'), second=(False,))
-    if p == 'C11': return wrap_items(['C11'], tier, pred=lambda r: r['intended']['invalidate_on'] or r['group'] in ('plain',), second=(False, True))
+    if p == 'C09': return inv_step_items('C09', tier) + extra_step_items(['C09'], tier) + wrap_items(['C09'], tier, pred=lambda r: r['intended']['result'], second=(False, True))
+    if p == 'C10': return inv_step_items('C10', tier) + wrap_items(['C10'], tier, pred=lambda r: r['intended']['cache_if'] or r['group'] in ('plain', 'res'), second=(False,))
+    if p == 'C11': return inv_step_items('C11', tier) + wrap_items(['C11'], tier, pred=lambda r: r['intended']['invalidate_on'] or r['group'] in ('plain',), second=(False, True))
     if p == 'C02': return key_items(['C02'], tier) + wrap_items(['C02'], tier, pred=lambda r: r['group'] in ('sig', 'method', 'plain'))
     if p == 'C20': return susp_items(['C20'], tier)
     if p in ('C17', 'C18'): return conc_items([p], tier) + cconc_items([p], tier)
     if p in ('C12', 'C13'): return inv_items([p], tier)
-    if p == 'C14': return wrap_items(['C14'], tier, pred=lambda r: r['group'] in ('cfg', 'plain', 'sig', 'method', 'meta', 'mem'), patterns=('same', 'other-thread')) + part_items(['C14'], tier)
+    if p == 'C14': return wrap_items(['C14'], tier, pred=lambda r: r['group'] in ('cfg', 'plain', 'sig', 'method', 'meta', 'mem'), patterns=('same', 'other-thread')) + part_items(['C14'], tier) + conc_items(['C14'], tier, want=lambda pn, it: pn in ('same|same', 'fill|new'))
     if p == 'C19': return wrap_items(['C19'], tier)
     return []
